@@ -71,12 +71,20 @@ def run_table(ctx, si, overridden, rep):
         if has_project:
             creds['project_id'] = 'p1'
     else:
+        legacy = False
+        if rep == 'policy-values' and has_system:
+            legacy = bool(ctx.bool('legacy_system_key'))
+            spelling = 'system' if legacy else 'system_scope'
         rc = context.RequestContext(
             user_id='u', roles=['member'],
-            system_scope='all' if has_system else None,
+            system_scope='all' if (has_system and not legacy) else None,
             domain_id='d1' if has_domain else None,
             project_id='p1' if has_project else None)
         creds = rc if rep == 'context' else rc.to_policy_values()
+        if legacy:
+            # services that still write the old key into the mapping
+            creds['system'] = 'all'  # legacy key
+
     # -- policy ---------------------------------------------------------------
     env = common.PolicyEnv()
     try:
